@@ -14,6 +14,7 @@ def showCallResult : CallResult → String
   | .failed c => s!"err code {c}"
   | .emptyReply => "err empty-reply"
   | .ctxError => "err ctx"
+  | .closed => "err closed"
 
 def parseReply (kind : String) (payload : String) : Option RpcReply :=
   match kind with
@@ -34,6 +35,8 @@ def rpcStep (r : Rpc) (args : List String) : Rpc × String :=
     | _, _ => (r, "bad-op")
   | "call" :: token :: rest =>
     let (r1, id) := r.callBegin token "echo" token
+    -- on a connection whose read loop has ended the caller sees that at once
+    let r1 := r1.observeEnd id
     match findStr "early" rest with
     | some p =>
       match deliverAndTake r1 id (.result p) with
@@ -63,6 +66,10 @@ def rpcStep (r : Rpc) (args : List String) : Rpc × String :=
       let r' := r.deliverRequest q (known == "known") (tok arg) (findStr "callback" rest)
       (r', s!"ok handled={r'.handled}")
     | none => (r, "bad-op")
+  -- the connection ends: every call in progress returns (`end_releases_every_call`), each with its delivered reply
+  -- or the connection's error (`observeEnd_plain`); handlers blocked in a call-back answer with an error
+  | ["endserve"] => let r' := r.serveEnd.releaseAll; (r', s!"ok live={r'.live.length}")
+  | ["outbox", "sorted"] => ({ r with outbox := [] }, "ok " ++ joinC (sortStrings (r.outbox.map showOutgoing)))
   | ["outbox"] => ({ r with outbox := [] }, "ok " ++ joinC (r.outbox.map showOutgoing))
   | ["pendinglen"] => (r, s!"ok {r.pending.length}")
   | "storm" :: rest =>
